@@ -237,8 +237,6 @@ def _worker(job, chk):
     si, prefix, pooling, tier = job
     servers = SERVER_SETS[si]
     sets = [tuple(k for j, k in enumerate(UNIVERSE) if m >> j & 1) for m in range(256)]
-    if tier == "quick" and (pooling or si in (2, 4)):
-        sets = [s for s in sets if len(s) <= 3 or len(s) == 8]
     sets += [tuple(b) for b in big_sets()]
     for keys in sets:
         P = run_case(servers, keys, prefix, pooling)
